@@ -96,9 +96,11 @@ def worker_main(argv):
                             stats["samples"].append(dict(program=text.splitlines()[:60], events=int(hist.n), classes=classes))
         return prog, text, outcome, rc, hist, verdicts, output
 
+    stop_file = os.path.join(outdir, "stop")
+
     def test_body(recipe):
-        if time.time() > t_end and state["first_fail_t"] is None:
-            return          # budget over: remaining examples of this round are no-ops
+        if state["first_fail_t"] is None and (time.time() > t_end or os.path.exists(stop_file)):
+            return          # budget over (or another worker already holds a failure): remaining examples of this round are no-ops
         if state["first_fail_t"] is not None and time.time() - state["first_fail_t"] > chk.shrink_budget_s:
             return          # shrink budget over: let the shrinker stop
         reruns = 1 if state["first_fail_t"] is None else chk.shrink_reruns(kind)
@@ -120,10 +122,14 @@ def worker_main(argv):
                 if state["first_fail_t"] is None:
                     state["first_fail_t"] = time.time()
                     state["stuck_mode"] = (fresh[0].kind == "stuck")
+                    try:
+                        open(stop_file, "w").close()
+                    except OSError:
+                        pass
                 raise CaseFailed(fresh[0].what)
 
     rnd = 0
-    while time.time() < t_end and state["best"] is None:
+    while time.time() < t_end and state["best"] is None and not os.path.exists(stop_file):
         s = (seed * 1000003 + widx * 7919 + rnd * 104729) & 0x7fffffff
         rnd += 1
         stats["rounds"] = rnd
@@ -316,12 +322,16 @@ class E3Check:
         import re
         text = re.sub(r"cpu=\d+", "cpu=%d" % runner.cpu, text)
         bad = []
+        self.last_known_hits = []
         for i in range(runs):
             outcome, rc, hist, output = runner.run(text, active_cpus=active_cpus, budget_s=self.case_budget_s)
             prog = e3.Program.from_text(text, active_cpus)
             for v in self.judge(prog, hist, outcome, rc, output):
-                if self.match_known(v, known) is None:
+                k = self.match_known(v, known)
+                if k is None:
                     bad.append((i, v))
+                else:
+                    self.last_known_hits.append(k)
         return bad
 
     def replay(self, path):
@@ -358,6 +368,8 @@ class E3Check:
             b = json.load(open(os.path.join(d, f)))
             n += 1
             bad = self.replay_program(runner, b["program"], b.get("active_cpus", 1), 3, known)
+            for k in self.last_known_hits:
+                rep.known_hit(k)
             if bad:
                 b2 = dict(b, verdicts=[bad[0][1].to_json()], corpus_file=f)
                 rep.add_violation(core.Violation(self.prop, "regression corpus entry %s: %s" % (f, bad[0][1].what), b2, ext="json"))
